@@ -26,8 +26,41 @@ fn main() {
     if args.opt_u64("repro", 0) == 1 {
         std::process::exit(repro(&args));
     }
+    if let Some(p) = &args.replay {
+        std::process::exit(replay(p, &args));
+    }
     vcommon::par::quiet_panics();
     std::process::exit(run(&args));
+}
+
+/// `--replay FILE`: re-execute the recorded history of a sequential / fault-enumeration witness
+/// against the current build (exit 1 = the violation reproduces, 0 = it does not, 2 = not replayable).
+fn replay(p: &std::path::Path, args: &Args) -> i32 {
+    let Ok(text) = std::fs::read_to_string(p) else { return 2 };
+    let Ok(v) = vcommon::serde_json_parse(&text) else { return 2 };
+    println!("replay: recorded signature = {}", v.get("signature").and_then(|x| x.as_str()).unwrap_or("?"));
+    let w = v.get("witness").cloned().unwrap_or(v.clone());
+    let Some(rec) = w.get("replay") else {
+        println!("this witness comes from a thread run (not deterministic); its recorded history:\n{w}");
+        println!("INCONCLUSIVE property=C16 reason=thread-stage witnesses are re-run by the check with the recorded seed");
+        return 2;
+    };
+    let root = scratch_root("c16-replay", args.opt_str("tmp"));
+    let out = seq::replay(rec, &root);
+    cleanup_root(&root);
+    match out {
+        None => 2,
+        Some(o) => match o.violation {
+            Some((sig, what)) => {
+                println!("REPRODUCED signature={sig}: {what}");
+                1
+            }
+            None => {
+                println!("NOT REPRODUCED: the history completes, reader reached end-of-stream = {}", o.reached_eos);
+                0
+            }
+        },
+    }
 }
 
 fn run(args: &Args) -> i32 {
@@ -50,10 +83,10 @@ fn run(args: &Args) -> i32 {
     let mut rng = Rng::derive(args.seed, &[16]);
 
     // ---------------- stage 1 ----------------
-    if stage.is_empty() || stage == "miri" {
+    if (stage.is_empty() || stage == "miri") && selftest != 3 {
         let tiny = seq::tiny_scenarios();
-        let cap = if reduced { args.opt_u64("exh_cap", 40) } else { args.bound("exh_cap", 6_000, 400_000) };
-        let tiny: Vec<(usize, seq::Scenario)> = tiny.into_iter().enumerate().filter(|(i, _)| !reduced || i % 13 == 0).collect();
+        let cap = if reduced { args.opt_u64("exh_cap", 8) } else { args.bound("exh_cap", 6_000, 400_000) };
+        let tiny: Vec<(usize, seq::Scenario)> = tiny.into_iter().enumerate().filter(|(i, _)| !reduced || i % 16 == 1).collect();
         // split every scenario's schedule tree by its first scheduler choices so the DFS uses all cores
         let depth = if reduced { 1 } else { 3 };
         let mut jobs: Vec<(usize, seq::Scenario, Vec<usize>, std::sync::Arc<std::sync::atomic::AtomicI64>)> = vec![];
@@ -76,7 +109,7 @@ fn run(args: &Args) -> i32 {
                     e.1 &= done;
                     e.2 += 1;
                 }
-                Err(p) => rep.violation("panic", json!({"layer": "sequential-exhaustive", "scenario": sc.to_json(), "prefix": prefix, "panic": p})),
+                Err(p) => report_violation(&rep, "panic", json!({"layer": "sequential-exhaustive", "scenario": sc.to_json(), "prefix": prefix, "panic": p})),
             }
         });
         let per = per.into_inner().unwrap();
@@ -92,14 +125,14 @@ fn run(args: &Args) -> i32 {
             }
         }
         rep.extra("exhaustive_scenarios_complete", json!(format!("{complete}/{}", tiny.len())));
-        let n_rand = if reduced { args.opt_u64("l1_random", 6) } else { args.bound("l1_random", 40_000, 2_000_000) };
+        let n_rand = if reduced { args.opt_u64("l1_random", 3) } else { args.bound("l1_random", 40_000, 2_000_000) };
         let s1 = rng.next_u64();
         vcommon::par::run(if reduced { 1 } else { args.workers }, 0..n_rand, |i| {
             if rep.violation_count() > 20 {
                 return;
             }
             if let Err(p) = vcommon::par::guard(|| seq::random_history(&rep, s1, i, &root, selftest, 3, 4)) {
-                rep.violation("panic", json!({"layer": "sequential-random", "seed": s1, "index": i, "panic": p}));
+                report_violation(&rep, "panic", json!({"layer": "sequential-random", "seed": s1, "index": i, "panic": p}));
             }
         });
         if !reduced {
@@ -113,8 +146,8 @@ fn run(args: &Args) -> i32 {
     if selftest != 2 {
         let runs = match stage {
             "miri" => args.opt_u64("l2_runs", 1),
-            "tsan" => args.bound("l2_runs", 150, 400),
-            _ => args.bound("l2_runs", 3_000, 80_000),
+            "tsan" => args.bound("l2_runs", 300, 3_000),
+            _ => args.bound("l2_runs", 3_000, 100_000),
         };
         let runs = if selftest != 0 { runs.min(50) } else { runs };
         let (mt, mp) = if cfg!(miri) { (2, 2) } else { (3, 5) };
@@ -127,7 +160,7 @@ fn run(args: &Args) -> i32 {
         let s3 = rng.next_u64();
         vcommon::par::run(args.workers, 0..n, |i| {
             if let Err(p) = vcommon::par::guard(|| seq::fault_sweep(&rep, s3, i, &root)) {
-                rep.violation("panic", json!({"layer": "fault-enumeration", "seed": s3, "index": i, "panic": p}));
+                report_violation(&rep, "panic", json!({"layer": "fault-enumeration", "seed": s3, "index": i, "panic": p}));
             }
         });
         for kind in ["quota-transient", "quota-persistent", "tempfile-creation", "disk-manager-disabled"] {
